@@ -396,8 +396,25 @@ fn read_handle(mut f: File, read: bool, handle: &mut Option<HandleInfo>) -> Res 
     }
 }
 
+thread_local! {
+    /// Some(offset): the application stages its sources and temp-file objects in the write cache's own
+    /// `.kismet_temp` (the documented workflow) and they carry a modification time `offset` nanoseconds away from
+    /// the clock (a file copied with its timestamps preserved, or written by a host whose clock runs ahead)
+    pub static STAGED_SOURCE: std::cell::Cell<Option<i64>> = const { std::cell::Cell::new(None) };
+}
+
 /// Creates the application's own source file for a by-path set/put.
 fn make_source(dirs: &Dirs, v: Val) -> std::io::Result<tempfile::NamedTempFile> {
+    if let Some(off) = STAGED_SOURCE.with(|s| s.get()) {
+        let dir = dirs.write.join(".kismet_temp");
+        crate::shim::passthrough(|| std::fs::create_dir_all(&dir))?;
+        let mut t = tempfile::NamedTempFile::new_in(&dir)?;
+        write_val(t.as_file_mut(), v)?;
+        let m = crate::shim::clock_peek_ns() as i128 + off as i128;
+        let p = t.path().to_owned();
+        crate::shim::passthrough(|| world::set_times(&p, m, m));
+        return Ok(t);
+    }
     let mut t = tempfile::NamedTempFile::new_in(&dirs.app_tmp)?;
     write_val(t.as_file_mut(), v)?;
     Ok(t)
